@@ -30,6 +30,14 @@ def run(ctx):
         cases.append(dict(id=len(cases), edges=v["edges"], main=v["main"], mods=["a", "b", "c"], extra="", more=True)); meta.append(("graph", v))
     for v in vecs4:
         cases.append(dict(id=len(cases), edges=v["edges"], main=v["main"], mods=["a", "b", "c", "e"], extra="", more=True)); meta.append(("graph4", v))
+    # the same digraphs with a registered library imported by EVERY file: importing a library again from
+    # another module changes nothing (twice in ONE file is a redeclaration error in file mode - not demanded either way)
+    for v in rnd.sample(vecs, 1500 if ctx.tier == "quick" else len(vecs)):
+        cases.append(dict(id=len(cases), edges=v["edges"], main=v["main"], mods=["a", "b", "c"], extra="", more=True, libs=True)); meta.append(("graph-libs", v))
+    # a module file that consists of import statements only ("hollow"): its imports are loaded all the same, cycles through it reported
+    for v in rnd.sample(vecs, 900 if ctx.tier == "quick" else len(vecs)):
+        h = rnd.choice(["a", "b", "c"])
+        cases.append(dict(id=len(cases), edges=v["edges"], main=v["main"], mods=["a", "b", "c"], extra="", hollow=[h])); meta.append(("graph-hollow", v))
     for v in mvecs:
         cases.append(dict(id=len(cases), edges=v["edges"], main=v["main"], mods=["a", "b", "d"], extra="")); meta.append(("missing", v))
     # export / read-only / selective-import probes (a -> b chain)
@@ -71,7 +79,7 @@ def run(ctx):
             rep(r["obs"], "%s: %s" % (r["obs"], r.get("detail", "")[:200])); continue
         d = [strs(x) for x in r.get("display") or []]
         bodies = [x[0][5:] for x in d if len(x) == 1 and x[0] and x[0].startswith("body-")]
-        want_bodies = [m for m in v["trace"]]
+        want_bodies = [m for m in v["trace"] if m not in (c.get("hollow") or [])]
         if v["res"] == "done":
             if r["obs"] != "value":
                 rep("error-for-ok", "spec: loads %s without error; interpreter: error [%s] %s" % (v["trace"], r.get("code"), r.get("msg"))); continue
@@ -86,7 +94,7 @@ def run(ctx):
                         rep("home-module-" + what, "probe (%s) gave %s, spec %s: code of an imported module resolves its own module's names everywhere" % (what, row, want_row))
                 d = d[:-3]
             probe = d[-1] if d else []
-            want_probe = [(SHORT[m] + "-help") if m in v["main"] else "ERR" for m in mods]
+            want_probe = [(SHORT[m] + "-help") if m in v["main"] and m not in (c.get("hollow") or []) else "ERR" for m in mods]
             if probe != want_probe:
                 bad = next((mods[i] for i in range(len(mods)) if i < len(probe) and probe[i] != want_probe[i]), "?")
                 k2 = "home-module" if bad in v["main"] else "visibility"
@@ -105,6 +113,6 @@ def run(ctx):
                     "imported modules x four import lists (TLC checks the invariants on all 262144; quick replays a seeded 6000 of them, thorough all), plus all digraphs on two modules with a missing third one (576): TLC runs the depth-first load machine (invariants: body at most once, imports before body, circular error iff a cycle "
                     "is reachable - against an independent transitive-closure definition) and emits body trace and result; each vector becomes a directory of .zn files with "
                     "1-3 path segments, executed with LoadFile().Execute: body order/multiplicity, error code 63/60, and four probes per module (an imported method, a handler block of an imported method, a body "
-                    "constructing the module's type and a method of that type must all be able to use their own module's names; modules not imported by main are not visible); plus 8 export/read-only/selective-import probe programs",
+                    "constructing the module's type and a method of that type must all be able to use their own module's names; modules not imported by main are not visible); the three-module digraphs again with one module file made of import statements only, and with the library 《@JSON》 imported by every file; plus 8 export/read-only/selective-import probe programs",
                spec_outcomes=outcomes)
     return cov, ["import order inside a module is alphabetical (the generator writes it that way)", "four modules: exhaustive in the thorough tier, a TLC-seeded sample in the quick tier"]
